@@ -132,7 +132,7 @@ def contexts(ctx, rnd):
 def seed_layer():
     """Concrete, non-deciding: malformed constructs and Windows drive shapes through every public entry point."""
     from wcmatch import fnmatch as F, glob as G, pathlib as P, wcmatch as W
-    texts = gen.odd_patterns() + ['[a--a]', '[9--a]', '[a--b-c]', 'x[z--q]*', '@([a--a])', '//server', '//server/', '\\\\\\\\server\\\\', '//?/', '//a//', '@(x)|//srv',
+    texts = gen.odd_patterns() + ['\\/', '\\/\\/', '\\/|a', 'a\\/', 'zz|\\', '\\/a', '@(\\/)', '[a--a]', '[9--a]', '[a--b-c]', 'x[z--q]*', '@([a--a])', '//server', '//server/', '\\\\\\\\server\\\\', '//?/', '//a//', '@(x)|//srv',
                                   '//?/UNC/', '//?/UNC/a', '//./', 'c:', 'c:/', '/', '//', '\\\\', '[c-\\z-ba]', '[a-[:alpha:][:digit:]]', '!(', '!()', '!(!(!(a)))',
                                   '*(*(*(*(a))))', '{a,b', '{', '}', '~', '~/', '\\N{', '\\x', '\\u12', '\\777', '[\\', '[\\]', '[]]', '[!]', '[^]', '[]-]', '[--]',
                                   '[a-]', '[-a]', '@(a|b|)', '@(|)', '@(a\\', '?(a|b', '\\', 'a\\', '\\\\', '***/***', '**/**/**', '!a', '-a', '!(a)!(b)!(c)']
@@ -182,6 +182,9 @@ def seed_layer():
         for f in (0, P.EXTGLOB | P.GLOBSTAR, P.CASE | P.EXTGLOB):
             run(('PurePosixPath.match', t, f), lambda: P.PurePosixPath('a/b').match(t, flags=f), t, False, True)
             run(('PureWindowsPath.match', t, f), lambda: P.PureWindowsPath('a/b').globmatch(t, flags=f), t, False, True)
+        for f in (0, P.EXTGLOB | P.GLOBSTAR | P.SPLIT, P.BRACE | P.NEGATE):
+            run(('Path.rglob', t, f), lambda: list(P.Path('/nonexistent-wcverif').rglob(t, flags=f)), t, False, True)
+            run(('Path.glob', t, f), lambda: list(P.Path('/nonexistent-wcverif').glob(t, flags=f)), t, False, True)
         run(('WcMatch', t), lambda: W.WcMatch('/nonexistent-wcverif', t, t, W.RECURSIVE | W.EXTMATCH | W.BRACE | W.FILEPATHNAME | W.DIRPATHNAME | W.GLOBSTAR), t)
         run(('WcMatch raw', t), lambda: W.WcMatch('/nonexistent-wcverif', t, None, W.RECURSIVE | W.RAWCHARS), t, True)
     return bad, n
@@ -200,8 +203,14 @@ def run(ctx):
         for f in fs[:6]:
             items.append(('free', f, 3, 900))
     ctxs = contexts(ctx, rnd)
+    n_skel = 10 + 40            # the hand-listed bracket / group / separator / backslash skeletons come first in contexts()
     for k, c in enumerate(ctxs):
-        for f in ([fs[k % len(fs)], fs[(k + 3) % len(fs)]] if ctx.quick else fs):
+        if ctx.quick:
+            # rotating flag sets, and for the skeletons always the two sets with implicit prefixes (MATCHBASE; pathlib's right-anchored form)
+            fsel = [fs[k % len(fs)], fs[(k + 3) % len(fs)]] + ([fs[5], fs[12]] if k < n_skel and c[1] == 1 else [])
+        else:
+            fsel = fs
+        for f in dict.fromkeys(fsel):
             items.append(('window', f, c, 25 if ctx.quick else 200))
     results = common.pmap(job, items, ctx.workers, chunk=1)
     paths = 0
@@ -229,6 +238,29 @@ def run(ctx):
             common.confirm(ctx, rep)
     if lost:
         ctx.inconclusive.append({'why': f'{lost} lost-constraint events (__hash__ of a symbolic proxy) on parser paths: the free-mode claim would be void'})
+    # malformed constructs keep a literal-or-empty meaning: whatever a slash-less text means, MATCHBASE must mean the same thing for the
+    # last segment (the relational law of props/c02.matchbase_law needs no reading of the text, so it applies to malformed ones)
+    from props import c02
+    from wcmatch import glob as G
+    mtexts = [t for t in gen.odd_patterns() if '/' not in t] + ['\\', 'a\\', '*\\', '[a\\', '@(a\\', '\\\\', '[', '@(', '!(', '']
+    mitems = [(t, f) for t in dict.fromkeys(mtexts) for f in (G.EXTGLOB | G.GLOBSTAR, G.EXTGLOB | G.DOTGLOB | G.NEGATE)]
+    nlaw = 0
+    for r in common.pmap(c02.matchbase_law, mitems, ctx.workers, extra=(4,)):
+        nlaw += r['sat'] + r['unsat'] + r['unknown']
+        st = r['status']
+        if st in ('ok', 'compile_raises', 'region_nullable_group'):
+            continue
+        if st in ('unknown', 'not_encodable'):
+            ctx.inconclusive.append({'why': 'malformed-pattern MATCHBASE law: ' + st, 'item': r['item']})
+            continue
+        text, flags = r['item']
+        w = r['witness']
+        name = w if st == 'matchbase_changes_slashless_name' else 'd/' + w
+        common.confirm(ctx, {'describe': f'C10: the (malformed) pattern {text!r} does not keep one literal-or-empty meaning: with MATCHBASE it accepts {name!r} differently from {w!r} without',
+                             'steps': [{'as': 'a', 'call': 'engine.replayfn.matcher_accepts', 'args': ['gl', text, name, {'flags': flags | G.MATCHBASE}]},
+                                       {'as': 'b', 'call': 'engine.replayfn.matcher_accepts', 'args': ['gl', text, w, {'flags': flags & ~G.MATCHBASE}]}],
+                             'assert': 'a == b'})
+    ctx.coverage['malformed_matchbase_law_queries'] = nlaw
     bad, n_seed = seed_layer()
     bad = [b for b in bad if not ('escaped-range-end-then-hyphen' in live and 'bad character range' in b[1])]
     for desc, what in bad[:10]:
